@@ -247,6 +247,8 @@ class Sim:
         except (Violation, K.HarnessError):
             raise
         except Exception as e:
+            if K.raised_in_harness(e):
+                raise K.HarnessError(f"simulator code failed in {kind}: {type(e).__name__}: {e}\n{traceback.format_exc()}")
             self.stats["exceptions"][type(e).__name__] = self.stats["exceptions"].get(type(e).__name__, 0) + 1
             tb = "".join(traceback.format_exc().splitlines(True)[-4:])
             raise Violation("op-raised", f"{kind} on net {n} raised {type(e).__name__}: {e}\n{tb}")
@@ -257,6 +259,8 @@ class Sim:
         except (Violation, K.HarnessError):
             raise
         except Exception as e:
+            if K.raised_in_harness(e):
+                raise K.HarnessError(f"simulator code failed while checking after {kind}: {type(e).__name__}: {e}\n{traceback.format_exc()}")
             tb = "".join(traceback.format_exc().splitlines(True)[-4:])
             raise Violation("observation-raised", f"after {kind} (net {n}): reading a live network raised "
                                                   f"{type(e).__name__}: {e}\n{tb}")
@@ -661,9 +665,7 @@ def gen_and_run(seed, index, tier, rundir):
         except K.HarnessError:
             raise
         except Exception as e:
-            sim.stats["exceptions"][type(e).__name__] = sim.stats["exceptions"].get(type(e).__name__, 0) + 1
-            return world, ops, sim, Violation("op-raised", f"{op['op']} raised {type(e).__name__}: {e}\n"
-                                              + "".join(traceback.format_exc().splitlines(True)[-6:]))
+            raise K.HarnessError(f"simulator code failed around {op['op']}: {type(e).__name__}: {e}\n{traceback.format_exc()}")
     return world, ops, sim, None
 
 
@@ -678,7 +680,7 @@ def run_ops(world, ops, rundir):
         except K.HarnessError:
             raise
         except Exception as e:
-            return sim, Violation("op-raised", f"{op['op']} raised {type(e).__name__}: {e}"), i
+            raise K.HarnessError(f"simulator code failed around {op['op']}: {type(e).__name__}: {e}\n{traceback.format_exc()}")
     return sim, None, None
 
 
